@@ -13,7 +13,7 @@ class Contract(object):
     def __init__(self, qual, params=None, returns=None, requires=(), ensures=None, modifies=(),
                  raises=None, let=None, inline=(), loops=None, pure_keys=None, trusted=False,
                  props=(), note='', module=None, exc_ensures=None, fresh_result=False,
-                 noexc=True, events=None, local_modes=None, var_types=None, casts=(), no_return=False, chunks=1, ghost=None, yield_spec=None):
+                 noexc=True, events=None, local_modes=None, var_types=None, casts=(), no_return=False, chunks=1, ghost=None, yield_spec=None, cfile=None):
         self.qual = qual
         self.params = dict(params or {})
         self.returns = returns
@@ -38,6 +38,7 @@ class Contract(object):
         self.no_return = no_return
         self.chunks = chunks
         self.yield_spec = yield_spec
+        self.cfile = cfile
         self.ghost = dict(ghost or {})   # universally quantified specification-only parameters
         self.casts = list(casts)     # (statement head text, variable, typespec): proved, then used as hint
 
